@@ -1148,6 +1148,26 @@ func runC14(r *Run, rng *Rng, tier string) error {
 		runOne14(r, c, false)
 		lawSplit14(r, c, g)
 	}
+	// anchors / aliases / merge keys: the de-anchored document goes to the model and the laws; the operation on the
+	// document as written runs on the implementation only and is counted as skipped when its result is unrepresentable
+	nAlias := 120
+	if tier == "thorough" {
+		nAlias = 1500
+	}
+	for i := 0; i < nAlias; i++ {
+		c, raw, ok := genAliasCase14(rng.Fork(), r)
+		if ok {
+			r.Count("alias_docs", "de-anchored: sent to the model")
+			runOne14(r, c, true)
+		}
+		cls, doc, found, _ := exec14(raw)
+		if _, rep := caseTerm14(raw, cls, doc, found); rep {
+			r.Count("alias_docs", "as written: representable result")
+		} else {
+			r.Count("alias_docs", "as written: implementation only (alias nodes are not representable)")
+			r.Meta.Skipped++
+		}
+	}
 	for i := 0; i < nLaw; i++ {
 		g := rng.Fork()
 		c := gen(g)
